@@ -488,7 +488,9 @@ def items(tier, rng):
         for algo in ("bellman_ford", "dijkstra_edges"):
             if n == 4 and len(arcs) in (3, 4) and (n, arcs) not in list(NAMED_EDGE.values()):
                 continue  # the permuted-path family is for the all-pairs solver
-            for target in (None, n - 1):
+            for target in (None, n - 1, 0):  # 0: the target is the source itself (still UNBOUNDED if a negative cycle is reachable)
+                if target == 0 and (len(arcs) + n) % 2:
+                    continue
                 out.append({"name": "%s_%d_%s" % (algo, n, "".join("%d%d" % a for a in arcs)), "harness": "h_edges",
                             "params": {"algo": algo, "n": n, "arcs": arcs, "src": 0, "target": target}})
         for directed in (True, False):
